@@ -221,6 +221,16 @@ def neighbours(case, rng, k=220):
             cleared = cleared[:i] + ("A" if w[0] != "A" else "C") + cleared[i + 1:]
         if cleared != seq:
             starts.append(cleared)
+    if case[-1] != "variant":
+        # other sequences of the same length for the same specification and window (a law about an edit
+        # needs a sequence on which the specification passes first)
+        for gc in (0.5, 0.5, 0.3, 0.7, 0.5, 0.2, 0.8):
+            s1 = specs.rdna(rng, n, gc)
+            try:
+                init_spec(desc, s1, role)
+                starts.append(s1)
+            except Exception:  # noqa
+                pass
     for s0 in starts:
         for st in (0, 1, -1):
             for w in words:
